@@ -234,7 +234,7 @@ def content_der(t, av):
                 continue
             if mode == "def" and _is_default(ct, av[name], dflt):
                 continue
-            parts.append((outer_tag(ct, av[name]), der(ct, av[name])))
+            parts.append((outer_tag(ct, av[name]) if k == "SET" else None, der(ct, av[name])))
         if k == "SET":
             # X.690 10.3 / 8.12: canonical order of tags
             srt = []
